@@ -197,6 +197,8 @@ fn data_templates(m: &Model, al: &Alphabet) -> Vec<Vec<DataT>> {
     if al.rich {
         v.push(vec![new("s1", "k0", Val::S("v".into()), None)]);
         v.push(vec![new("s0", "k0", Val::S("v".into()), None), new("s1", "k0", Val::S("v".into()), None)]);
+        // two values under one key in one annotation
+        v.push(vec![new("s0", "k0", Val::S("v".into()), None), new("s0", "k0", Val::S("x".into()), None)]);
         // a run of two items from one set followed by an item from another set
         v.push(vec![new("s0", "k0", Val::S("v".into()), None), new("s0", "k1", Val::S("w".into()), None), new("s1", "k0", Val::S("v".into()), None)]);
     }
